@@ -7,6 +7,9 @@ From Coq Require Import ZArith.
 From InfOCF Require Import PyLib TieMax TieLayer TieW TieWTop.
 From InfOCFGen Require Import SrcW.
 From Coq Require Import ZArith.
+From InfOCF Require Import PyLib TieSolver TieMax TieLayer TieLex TieLexTop.
+From InfOCFGen Require Import SrcLex.
+From Coq Require Import ZArith.
 
 (* extended p-entailment (Pinf: extended partition of D + (not B|A), then "no world spares the last layer and satisfies A"):
    the dictionary keys of the base are distinct *)
@@ -64,6 +67,13 @@ Theorem C07_source_system_w_extended : forall n D, NoDup (map kz D) -> forall q 
     (trivial n q || b) = ext_spec (worlds n) P q w_spec.
 Proof. exact src_w_ext_spec. Qed.
 Print Assumptions C07_source_system_w_extended.
+
+Theorem C07_source_lex_inf_extended : forall n D, NoDup (map kz D) -> forall q P vq0 fq0, D <> [] -> part_ext n D = Some P ->
+  exists lay m b, P = acP (Pc D lay m) /\
+    py_LexInf_inference n (S m) (Pk D lay m) (nf_of D) (fd_of D) vq0 fq0 (bb_of D) tt q true tt = Return b /\
+    (trivial n q || b) = ext_spec (worlds n) P q lex_spec.
+Proof. exact src_lex_ext_spec. Qed.
+Print Assumptions C07_source_lex_inf_extended.
 
 Example weak_birds : part_strict 4 birds_weak = None
   /\ map (fun s => map (infer 4 s true birds_weak) [q_fp; q_nfp; q_wp]) [SysP; SysZ; SysW; SysLex]
